@@ -326,7 +326,7 @@ func sameIDs(a, b []int64) bool {
 func main() {
 	f := gallina.ParseFlags()
 	meta := gallina.NewMeta("C34", f.Seed, f.Tier)
-	meta.Rule = "corpus (finding reproducers first) + seeded pairs (r, offset, r2) with r of 9 kinds (dyadic, decimal, uniform, hash/2^64, tiny, subnormal, near 1, upper half, fixed) and the offset at/around r and fl(1+fl(r-1)) (+-3 ulp, inside the gap, 2^-64 grid neighbours, 0, 1) + out-of-domain pairs (negative, >1, NaN, Inf: correspondence only) + real label sets (Hash/SampleOffset) + limit_ratio queries through the engine on generated vectors with r at/next to a real series offset; non-trivial = pair whose offset is within 4 ulp of r or of fl(1+fl(r-1)) or inside the gap, or query in which both the selected and the unselected set are non-empty; distinct by (r, off, r2) bit patterns resp. by query case"
+	meta.Rule = "corpus (finding reproducers first) + seeded pairs (r, offset, r2) with r of 9 kinds (dyadic, decimal, uniform, hash/2^64, tiny, subnormal, near 1, upper half, fixed) and the offset at/around r and fl(1+fl(r-1)) (+-3 ulp, inside the gap, 2^-64 grid neighbours, 0, 1) + out-of-domain pairs (negative, >1, NaN, Inf: correspondence only) + real label sets (Hash/SampleOffset) + limit_ratio queries through the engine on generated vectors with r at/next to a real series offset + range queries with a step-varying ratio (scalar(series) or time() arithmetic; profiles: touching 1, touching 0, all zero, exact, generic, at-offset, mixed sign, beyond +-1, NaN step) checked per step; non-trivial = pair whose offset is within 4 ulp of r or of fl(1+fl(r-1)) or inside the gap, or query / range query in which (at some step) both the selected and the unselected set are non-empty; distinct by (r, off, r2) bit patterns resp. by query case"
 	cf := &gallina.CaseFile{Dir: f.Out, Type: "case", PerShard: 450,
 		Preamble: "From Coq Require Import List ZArith Bool.\nFrom Verif Require Import model.LimitRatio corr.CorrC34.\nImport ListNotations.\nOpen Scope Z_scope.\n",
 		Footer:   gallina.StdFooter}
@@ -388,7 +388,7 @@ func main() {
 	emitPair("corpus", 0x1p-60, 0x1p-61, 0x1p-59, "tiny r: offset below r is selected by both")
 
 	// ---- seeded pairs ----
-	n := f.Count(2600, 30000)
+	n := f.Count(1500, 30000)
 	for i := 0; i < n; i++ {
 		g := gen.Fork(f.Seed, i)
 		r, kind := genRatio(g)
@@ -398,7 +398,7 @@ func main() {
 	}
 	// ---- out-of-domain pairs: correspondence only ----
 	specials := []float64{math.NaN(), math.Inf(1), math.Inf(-1), -1, -0.5, -0.1, -0.9, -1.5, 1.5, 2, -2, ulps(1, 1), ulps(-1, -1), -math.SmallestNonzeroFloat64, math.MaxFloat64}
-	n2 := f.Count(300, 3000)
+	n2 := f.Count(200, 3000)
 	for i := 0; i < n2; i++ {
 		g := gen.Fork(f.Seed^0x5151, i)
 		var r float64
@@ -430,7 +430,7 @@ func main() {
 	}
 
 	// ---- real label sets: labels.Hash() and SampleOffset ----
-	nh := f.Count(400, 5000)
+	nh := f.Count(200, 5000)
 	hiHash := 0
 	for i := 0; i < nh; i++ {
 		g := gen.Fork(f.Seed^0xA5A5, i)
@@ -718,11 +718,269 @@ func main() {
 	// corpus queries: the finding through the real engine with fixed label sets
 	runQuery(0, gen.Fork(7, 0), "corpus", "r = SampleOffset of a fixed series with fl(1+fl(r-1)) > r: that series is selected by neither limit_ratio(r) nor limit_ratio(r-1)")
 	runQuery(1, gen.Fork(7, 1), "corpus-both", "r = next float above the SampleOffset of a fixed series with fl(1+fl(r-1)) <= offset: selected by both")
-	nq := f.Count(110, 1200)
+	nq := f.Count(72, 1200)
 	modes := []string{"at-offset", "at-offset", "at-offset", "exact", "exact", "generic", "generic", "special"}
 	for i := 0; i < nq; i++ {
 		g := gen.Fork(f.Seed^0xC34C34, i)
 		runQuery(i+2, g, modes[i%len(modes)], "")
+	}
+
+	// ---- range queries with a step-varying ratio (fParams non-constant path of rangeEvalAgg) ----
+	exactRatio := func(g *gen.Rand) float64 { // 0 < r < 1 with fl(1+fl(r-1)) == r
+		if g.Bool() {
+			j := g.Intn(6) + 1
+			return float64(g.Intn(1<<j-1)+1) / float64(int(1)<<j)
+		}
+		return 0.5 + math.Floor(g.Float()*0x1p20)/0x1p21
+	}
+	type rangeDesc struct {
+		Kind    string    `json:"kind"`
+		Metric  string    `json:"metric"`
+		QR      string    `json:"query_r"`
+		QC      string    `json:"query_c"`
+		Rs      []string  `json:"rs"`
+		Cs      []string  `json:"cs"`
+		Series  []string  `json:"series"`
+		Offsets []string  `json:"offsets"`
+		SelR    [][]int64 `json:"sel_r"`
+		SelC    [][]int64 `json:"sel_c"`
+		Errs    []string  `json:"errs,omitempty"`
+		Shape   string    `json:"shape"`
+		Corpus  string    `json:"corpus,omitempty"`
+	}
+	runRange := func(qi int, g *gen.Rand, profile string, corpus string) {
+		metric := fmt.Sprintf("r%d_%s", qi, strings.ReplaceAll(profile, "-", "_"))
+		K := g.Intn(4) + 2 // steps
+		if profile == "time" {
+			K = []int{2, 3, 4, 5}[g.Intn(4)]
+		}
+		ns := g.Intn(14) + 3
+		stepT := func(k int) time.Time { return time.Unix(int64(60*k), 0) }
+		type ser struct {
+			ls  labels.Labels
+			h   uint64
+			off float64
+		}
+		var sers []ser
+		idOf := map[string]int64{}
+		app := st.Appender(e.ctx)
+		for len(sers) < ns {
+			k := len(sers)
+			av := strconv.FormatUint(g.U64(), 36)
+			if corpus != "" {
+				av = fmt.Sprintf("fixed%d", k)
+			}
+			ls := labels.FromStrings("__name__", metric, "a", av, "g", fmt.Sprintf("g%d", g.Intn(3)))
+			if _, dup := idOf[ls.String()]; dup {
+				continue
+			}
+			idOf[ls.String()] = int64(k)
+			for j := 0; j < K; j++ {
+				if _, err := app.Append(0, ls, stepT(j).UnixMilli(), g.Float()*10); err != nil {
+					panic(err)
+				}
+			}
+			sers = append(sers, ser{ls: ls, h: ls.Hash(), off: sampler.SampleOffset(&ls)})
+		}
+		// the ratio profile
+		rs := make([]float64, K)
+		D := float64(60 * (K - 1))
+		for k := range rs {
+			switch profile {
+			case "touch-one", "exact":
+				rs[k] = exactRatio(g)
+			case "touch-zero":
+				rs[k] = exactRatio(g)
+			case "all-zero":
+				rs[k] = []float64{0, math.Copysign(0, -1)}[g.Intn(2)]
+			case "generic":
+				rs[k], _ = genRatio(g)
+			case "at-offset":
+				rs[k] = clamp01(ulps(sers[g.Intn(len(sers))].off, g.Intn(5)-2))
+			case "mixed-sign":
+				rs[k] = []float64{0, math.Copysign(0, -1), -exactRatio(g), exactRatio(g), -1, 1, g.Float()*2 - 1}[g.Intn(7)]
+			case "beyond":
+				rs[k] = []float64{1, -1, 1.5, -1.5, ulps(1, 1), ulps(-1, -1), 0, exactRatio(g), -exactRatio(g), math.Inf(1), math.Inf(-1)}[g.Intn(11)]
+			case "nan":
+				rs[k] = []float64{exactRatio(g), 0, -exactRatio(g), math.Inf(1)}[g.Intn(4)]
+			case "time":
+				rs[k] = float64(stepT(k).UnixMilli()) / 1000 / D
+			}
+		}
+		switch profile {
+		case "touch-one": // the complement then has maximum exactly 0 and negative values elsewhere
+			rs[g.Intn(K)] = 1
+			if g.Chance(1, 3) {
+				rs[g.Intn(K)] = 0
+			}
+		case "touch-zero": // minimum exactly 0, positive elsewhere
+			rs[g.Intn(K)] = []float64{0, math.Copysign(0, -1)}[g.Intn(2)]
+		case "nan":
+			rs[g.Intn(K)] = math.NaN()
+		}
+		cs := make([]float64, K)
+		for k := range rs {
+			cs[k] = sub1(rs[k])
+		}
+		var qr, qc string
+		var errs []string
+		if profile == "time" {
+			qr = fmt.Sprintf("limit_ratio(time() / %s, %s)", fstr(D), metric)
+			qc = fmt.Sprintf("limit_ratio(time() / %s - 1, %s)", fstr(D), metric)
+		} else {
+			pr, pc := labels.FromStrings("__name__", "p_"+metric), labels.FromStrings("__name__", "pc_"+metric)
+			for k := range rs {
+				if _, err := app.Append(0, pr, stepT(k).UnixMilli(), rs[k]); err != nil {
+					panic(err)
+				}
+				if _, err := app.Append(0, pc, stepT(k).UnixMilli(), cs[k]); err != nil {
+					panic(err)
+				}
+			}
+			qr = fmt.Sprintf("limit_ratio(scalar(p_%s), %s)", metric, metric)
+			if g.Bool() {
+				qc = fmt.Sprintf("limit_ratio(scalar(pc_%s), %s)", metric, metric)
+			} else {
+				qc = fmt.Sprintf("limit_ratio(scalar(p_%s) - 1, %s)", metric, metric)
+			}
+		}
+		if err := app.Commit(); err != nil {
+			panic(err)
+		}
+		type robs struct {
+			err   bool
+			steps [][]int64
+		}
+		run := func(qs string) robs {
+			q, err := e.ng.NewRangeQuery(e.ctx, e.st, nil, qs, stepT(0), stepT(K-1), time.Minute)
+			if err != nil {
+				errs = append(errs, err.Error())
+				return robs{err: true}
+			}
+			defer q.Close()
+			res := q.Exec(e.ctx)
+			if res.Err != nil {
+				errs = append(errs, res.Err.Error())
+				return robs{err: true}
+			}
+			mat, err := res.Matrix()
+			if err != nil {
+				errs = append(errs, err.Error())
+				return robs{err: true}
+			}
+			out := robs{steps: make([][]int64, K)}
+			for _, sr := range mat {
+				sid, ok := idOf[sr.Metric.String()]
+				if !ok || len(sr.Histograms) > 0 {
+					errs = append(errs, "unknown series in result: "+sr.Metric.String())
+					return robs{err: true}
+				}
+				for _, pt := range sr.Floats {
+					k := int(pt.T / 60000)
+					if pt.T%60000 != 0 || k < 0 || k >= K {
+						errs = append(errs, "unexpected step")
+						return robs{err: true}
+					}
+					out.steps[k] = append(out.steps[k], sid)
+				}
+			}
+			for k := range out.steps {
+				ids := out.steps[k]
+				sort.Slice(ids, func(i, j int) bool { return ids[i] < ids[j] })
+			}
+			return out
+		}
+		oR, oC := run(qr), run(qc)
+		rg := func(o robs) string {
+			if o.err {
+				return "RErr"
+			}
+			it := make([]string, len(o.steps))
+			for k, st := range o.steps {
+				it[k] = zlist(st)
+			}
+			return "(RSteps " + gallina.List(it) + ")"
+		}
+		// shape: Go-side mirror of holds
+		inDom := true
+		for _, r := range rs {
+			if !in01(r) {
+				inDom = false
+			}
+		}
+		shape := "out-of-domain"
+		bothSides := false
+		if inDom {
+			switch {
+			case oR.err || oC.err:
+				shape = "range-error"
+			default:
+				nviol, gap, one := 0, 0, 0
+				for k := 0; k < K; k++ {
+					if n := len(oR.steps[k]); n > 0 && n < len(sers) {
+						bothSides = true
+					}
+					for i, sr := range sers {
+						if member(oR.steps[k], int64(i)) == member(oC.steps[k], int64(i)) {
+							nviol++
+							if inGap(rs[k], sr.off) {
+								gap++
+							} else if rs[k] == 1 && sr.off == 1 {
+								one++
+							}
+						}
+					}
+				}
+				switch {
+				case nviol == 0:
+					shape = "ok"
+				case gap == nviol:
+					shape = "complement-rounding"
+				case one == nviol:
+					shape = "offset-one"
+				default:
+					shape = "range-partition-other"
+				}
+			}
+		}
+		fl := func(xs []float64) (string, []string) {
+			a, b := make([]string, len(xs)), make([]string, len(xs))
+			for k, x := range xs {
+				a[k], b[k] = fb(x), fstr(x)
+			}
+			return gallina.List(a), b
+		}
+		rsG, rsS := fl(rs)
+		csG, csS := fl(cs)
+		rows := make([]string, len(sers))
+		d := rangeDesc{Kind: "range/" + profile, Metric: metric, QR: qr, QC: qc, Rs: rsS, Cs: csS, SelR: oR.steps, SelC: oC.steps, Errs: errs, Shape: shape, Corpus: corpus}
+		for k, sr := range sers {
+			rows[k] = fmt.Sprintf("mkRow %d %d %s", k, sr.h, fb(sr.off))
+			d.Series = append(d.Series, sr.ls.String())
+			d.Offsets = append(d.Offsets, fstr(sr.off))
+		}
+		cf.Add(fmt.Sprintf("CRange %s %s %s\n  %s\n  %s %s", zi(id), rsG, csG, gallina.List(rows), rg(oR), rg(oC)))
+		meta.Case(id, d)
+		meta.Evaluations++
+		meta.Hit("range/" + profile)
+		meta.Hit("range-shape/" + shape)
+		if bothSides {
+			meta.Nontrivial++
+			meta.Hit("range-both-sides-nonempty")
+		}
+		id++
+	}
+	// corpus: the complement of a ratio that reaches 1.0 at one step (max over steps exactly 0, negative elsewhere)
+	runRange(0, gen.Fork(11, 0), "touch-one", "r(t) exact-complement ratios reaching 1.0 at one step; r(t)-1 has maximum exactly 0")
+	runRange(1, gen.Fork(11, 1), "touch-zero", "r(t) reaching 0 at one step (minimum exactly 0, positive elsewhere)")
+	nr := f.Count(54, 600)
+	profiles := []string{"touch-one", "touch-zero", "exact", "time", "touch-one", "mixed-sign", "generic", "at-offset", "touch-one", "beyond", "all-zero", "nan"}
+	for i := 0; i < nr; i++ {
+		g := gen.Fork(f.Seed^0x7A46E, i)
+		runRange(i+2, g, profiles[i%len(profiles)], "")
+		if (i+1)%30 == 0 {
+			cf.Flush()
+		}
 	}
 
 	meta.Notes = append(meta.Notes,
